@@ -3,12 +3,19 @@
 Per generated design (real TModule/Method/Transaction/TransactionManager elaborated, netlist extracted):
 for every exclusive method, at most one of its call sites is active (caller's real `run` signal and the
 spec-level condition of the site), for all inputs and register values; and every pair of transactions that
-the spec-level oracle finds able to double-activate an exclusive method never runs together."""
+the spec-level oracle finds able to double-activate an exclusive method never runs together.
+
+Function contracts between the property and the code that implements it (each localises a failure to one function):
+  contracts/ctrlpath.py  CtrlPath.exclusive_with / is_prefix / is_proper_prefix, call_paths_exclusive,
+                         longest_common_prefix == their spec functions (E-PY, all element values, bounded lengths)
+  contracts/mgrfn.py     TransactionManager._conflict_graph: cgr symmetric and sound w.r.t. the oracle's SpecConf
+  contracts/schedfn.py   eager_deterministic_cc_scheduler: neighbours in the graph never both run (every graph, n <= 4/5)"""
 
 from contracts import corelib, schedfn, ctrlpath
 
 PROPERTY = "C01"
 LEVEL = "proof"
+ENGINE = "E-HW + E-PY"
 ASSUMPTIONS = corelib.CORE_ASSUMPTIONS
 TECHNIQUE = "contracts on the elaborated netlist of generated designs (real manager in the loop), discharged by z3 for all inputs; oracle = spec-level design semantics"
 
@@ -72,7 +79,21 @@ def _patch_exclusive_with_module():
     TM.CtrlPath.exclusive_with = bad
 
 
+def _patch_no_implicit_conflicts_for_nested():
+    import transactron.core.manager as MG
+    import inspect, textwrap
+
+    src = textwrap.dedent(inspect.getsource(MG.TransactionManager._conflict_graph))
+    old = "if transaction1 is not transaction2 and not calls_nonexclusive(transaction1, transaction2, method):"
+    assert old in src
+    src = src.replace(old, "if transaction1 is not transaction2 and 'TN' not in (transaction1.name, transaction2.name) and not calls_nonexclusive(transaction1, transaction2, method):")
+    ns = dict(MG.__dict__)
+    exec(src, ns)
+    MG.TransactionManager._conflict_graph = staticmethod(ns["_conflict_graph"])
+
+
 CANARIES = [
+    {"name": "conflict_graph_skips_nested_transactions", "cfg": {"design": "nested_child_conflict", "scheduler": "eager"}, "patch": _patch_no_implicit_conflicts_for_nested, "expect": r"_conflict_graph\.sound\[T0,TN\]"},
     {"name": "exclusive_with_function_ignores_par", "cfg": {"kind": "ctrlpath", "fn": "ctrlpath", "len": [2, 2]}, "patch": _patch_exclusive_with, "expect": r"CtrlPath\.exclusive_with.*result_equals_spec"},
     {"name": "exclusive_with_function_ignores_module", "cfg": {"kind": "ctrlpath", "fn": "call_paths", "len": [1, 1], "inner": [0, 1, 2]}, "patch": _patch_exclusive_with_module, "expect": r"call_paths_exclusive.*result_equals_spec"},
     {"name": "exclusive_with_ignores_par", "cfg": {"design": "disabled_calls", "scheduler": "eager"}, "patch": _patch_exclusive_with, "expect": r"at_most_one|never_run_together", "error_ok": False},
